@@ -238,11 +238,39 @@ theorem C07_explicit_null_dropped_witness :
 /-- A non-pointer member under omitempty loses its zero value — why required members must not be tagged
 omitempty (the class of the seeded change on required read-only members). -/
 theorem C07_omitempty_value_lost_witness :
-    (decode (.struct (.cons "n" true .int .nil)) (.obj [("n", .num 0)])).bind
-      (encode (.struct (.cons "n" true .int .nil))) = some (.obj []) := by
-  simp [decode, decodeFields, lookup, encode, encodeFields, isEmpty]
+    (decode (.struct (.cons "n" true int64 .nil)) (.obj [("n", .num 0)])).bind
+      (encode (.struct (.cons "n" true int64 .nil))) = some (.obj []) := by
+  simp [int64, decode, decodeFields, lookup, encode, encodeFields, isEmpty]
 
-example : valid (.struct (.cons "id" false .int (.cons "tags" true (.ptr (.slice .string)) .nil)))
+/-- Integer members: a number is accepted exactly when it lies in the range of the member's Go type, and then it is
+stored and written back unchanged — for every width and signedness (`.int lo hi`). -/
+theorem C07_integer_in_range_iff (lo hi n : Int) :
+    (decode (.int lo hi) (.num n)).isSome = decide (lo ≤ n ∧ n ≤ hi) ∧
+    (lo ≤ n → n ≤ hi → (decode (.int lo hi) (.num n)).bind (encode (.int lo hi)) = some (.num n)) := by
+  constructor
+  · by_cases h : lo ≤ n ∧ n ≤ hi <;> simp [decode, h]
+  · intro h1 h2; simp [decode, encode, h1, h2]
+
+/-- A member whose Go type is narrower than the schema's format loses instances of the schema: a `uint64` member
+mapped to `int64` rejects 2^63, which `uint64` keeps (the class of the seeded change on integer formats). -/
+theorem C07_narrowed_integer_rejects_witness :
+    decode int64 (.num 9223372036854775808) = none ∧
+    (decode uint64 (.num 9223372036854775808)).bind (encode uint64) = some (.num 9223372036854775808) ∧
+    decode uint8 (.num 256) = none ∧ decode int8 (.num (-129)) = none ∧ decode uint32 (.num (-1)) = none := by
+  simp [int64, uint64, uint8, int8, uint32, decode, encode]
+
+/-- `[]uint8` is outside the fragment: Go's `uint8` is `byte`, and encoding/json writes a byte slice as a base64
+string — an array of `format: uint8` integers comes back as a string (found by the correspondence run; replayed on
+the generated models and recorded in known-findings.txt). Every other slice type is inside. -/
+theorem C07_byte_slice_outside_fragment :
+    wf (.slice uint8) = false ∧ wf (.slice uint16) = true ∧ wf (.slice int8) = true ∧ wf (.slice (.slice uint8)) = false := by
+  decide
+
+/-- The validity predicate is met by the extremes of every width (non-vacuity of `C07_json_roundtrip` on integers). -/
+example : valid uint64 (.num 18446744073709551615) = true ∧ valid int64 (.num (-9223372036854775808)) = true ∧
+    wf uint64 = true ∧ wf int8 = true := by decide
+
+example : valid (.struct (.cons "id" false int64 (.cons "tags" true (.ptr (.slice .string)) .nil)))
     (.obj [("id", .num 7), ("tags", .arr [.str "a"])]) = true := by decide
 
 end OapiVerif.GoJson
